@@ -583,14 +583,14 @@ def main(argv):
     n_fresh = len(sessions)
     seeds = [0, 1, 2, rng.randrange(3, 2**32 - 1), rng.randrange(3, 2**32 - 1)]
     if thorough:
-        seeds += [rng.randrange(3, 2**32 - 1) for _ in range(5)]
+        seeds += [rng.randrange(3, 2**32 - 1) for _ in range(7)]
     idx = 0
     # one fixed order with repeated / interleaved configurations and no other activity, under every hash seed (seed 0 first:
     # a difference that shows there is about repetition or order, one that shows only later is about the hash seed)
     for hs in seeds:
         sessions.append(make_session("repeats-no-history", idx, subjects, random.Random(12345), hs, history=False))
         idx += 1
-    per_seed = 6 if thorough else 3
+    per_seed = 8 if thorough else 3
     for hs in seeds:
         for _ in range(per_seed):
             sessions.append(make_session("history", idx, subjects, random.Random(rng.getrandbits(64)), hs))
